@@ -120,6 +120,12 @@ func script(t N) string {
 	// a thread handle returned from a spawned call can still be waited for
 	sb.WriteString("func start() {\nc2 := chan(4)\ngo func() {\nfor i := 0; i < 50; i++ {\nc2 <- i\n}\nclose(c2)\n}()\nreturn c2\n}\ncc := spawn(start).wait()\ntot := 0\nnn := 0\nfor _, v := range cc {\ntot += v\nnn++\n}\nmark(\"nested\", 13, [nn, tot])\n")
 	sb.WriteString("func outerh() {\nreturn spawn(func() {\ntime.sleep(0.02)\nreturn 41 + 1\n})\n}\nhh := spawn(outerh).wait()\nmark(\"nested\", 14, hh.wait())\n")
+	// the host's own use of the spawn API (object.Spawn with an argument buffer it reuses), and builtins that call
+	// script callbacks run as spawned calls while the spawner keeps running
+	sb.WriteString("mark(\"hostspawn\", 15, hostfan(func(a) { return a * 10 }, [1, 2, 3, 4]))\n")
+	sb.WriteString("items := []\nfor i := 0; i < 20; i++ {\nitems.append(i)\n}\ncb := chan()\ntq := spawn(items.map, func(x) {\ncb <- (x * 2)\nreturn x + 1\n})\nrq := []\nfor i := 0; i < 20; i++ {\nrq.append(<-cb)\n}\nmark(\"spawnbuiltin\", 16, [rq, tq.wait()])\n")
+	sb.WriteString("go items.each(func(x) { cb <- (x * 3) })\nrg := []\nfor i := 0; i < 20; i++ {\nrg.append(<-cb)\n}\nmark(\"spawnbuiltin\", 18, rg)\n")
+	sb.WriteString("mark(\"spawnbuiltin\", 17, [1, 2, 3].map.spawn(func(x) { return x + 1 }).wait())\n")
 	sb.WriteString("\"done\"\n")
 	return sb.String()
 }
@@ -169,6 +175,33 @@ func runWorker(req N) (resp N) {
 	closed := b("closed", func(a []object.Object) { log(N{"ev": "close"}) })
 	newround := b("newround", func(a []object.Object) { log(N{"ev": "round", "n": iv(a[0])}) })
 	gotnil := b("gotnil", func(a []object.Object) { log(N{"ev": "nil", "r": iv(a[0])}) })
+	// hostfan(fn, items): one spawned call of fn per item through the public object.Spawn API, with ONE argument
+	// buffer that is overwritten for every call; returns the results in order
+	hostfan := object.NewBuiltin("hostfan", func(ctx context.Context, args ...object.Object) object.Object {
+		if len(args) != 2 {
+			return object.NewError(fmt.Errorf("hostfan: two arguments"))
+		}
+		items, ok := args[1].(*object.List)
+		if !ok {
+			return object.NewError(fmt.Errorf("hostfan: list expected"))
+		}
+		buf := make([]object.Object, 1)
+		var threads []*object.Thread
+		for _, it := range items.Value() {
+			buf[0] = it
+			th, err := object.Spawn(ctx, args[0], buf)
+			if err != nil {
+				return object.NewError(err)
+			}
+			threads = append(threads, th)
+		}
+		buf[0] = object.NewInt(-1)
+		out := make([]object.Object, 0, len(threads))
+		for _, th := range threads {
+			out = append(out, th.Wait(ctx))
+		}
+		return object.NewList(out)
+	})
 	var marks []any
 	mark := b("mark", func(a []object.Object) {
 		kind := a[0].(*object.String).Value()
@@ -187,7 +220,7 @@ func runWorker(req N) (resp N) {
 	stdout := ros.NewBufferFile(nil)
 	vos := ros.NewVirtualOS(ctx, ros.WithStdout(stdout))
 	res, err := risor.Eval(ctx, src, risor.WithOS(vos), risor.WithConcurrency(),
-		risor.WithGlobals(map[string]any{"sent": sent, "got": got, "closed": closed, "gotnil": gotnil, "mark": mark, "newround": newround}))
+		risor.WithGlobals(map[string]any{"sent": sent, "got": got, "closed": closed, "gotnil": gotnil, "mark": mark, "newround": newround, "hostfan": hostfan}))
 	out := N{"k": "ok", "src": src}
 	if err != nil {
 		out["k"] = "raise"
